@@ -189,13 +189,36 @@ def gen_fix_program(rng, k, forced=None):
     return code, lines
 
 
+class _Timeout(Exception):
+    pass
+
+
 def behaviour(text):
-    """Observable behaviour of target() on sample arguments."""
+    """Observable behaviour of target() on sample arguments (2 s budget: a broken rewrite may loop)."""
+    import signal
+
+    def on_alarm(signum, frame):
+        raise _Timeout()
+
+    old = signal.signal(signal.SIGALRM, on_alarm)
+    signal.setitimer(signal.ITIMER_REAL, 2.0)
+    try:
+        return _behaviour(text)
+    except _Timeout:
+        return [("timeout",)]
+    finally:
+        signal.setitimer(signal.ITIMER_REAL, 0)
+        signal.signal(signal.SIGALRM, old)
+
+
+def _behaviour(text):
     ns = {}
     out = []
     try:
         with contextlib.redirect_stdout(io.StringIO()):
             exec(compile(text, "<c16>", "exec"), ns)
+    except _Timeout:
+        raise
     except BaseException as ex:
         return [("module", type(ex).__name__)]
     for args in [(1, "a"), (0, None), (7, 2)]:
@@ -204,6 +227,8 @@ def behaviour(text):
             with contextlib.redirect_stdout(buf):
                 r = ns["target"](*args)
             out.append(("ok", repr(r), buf.getvalue()))
+        except _Timeout:
+            raise
         except BaseException as ex:
             out.append(("exc", type(ex).__name__, buf.getvalue()))
     return out
